@@ -26,6 +26,10 @@ def run(chk):
 
     r1 = core.e1_flow(chk, 'scen_batch', 'batch', {'C09'}, gen_mixed, n_mixed, keyfn=keyfn)
     r2 = core.e1_flow(chk, 'scen_batch', 'batch', {'C09'}, gen_burst, n_burst, keyfn=keyfn)
+    # the same worker behind the public API (Server + ThreadServlet + concurrent callers): monitors only
+    n_srv = 150 if quick else 4000
+    core.e1_flow(chk, 'scen_batch', None, {'C09'}, lambda rng: scen_batch.gen_server_case(rng, chk.tier), n_srv,
+                 keyfn=lambda case, res, m: m['rule'] + ':server')
     # what was actually exercised (model actions = event kinds; see scen_batch.model_lines)
     import collections
     evk = collections.Counter()
